@@ -94,8 +94,12 @@ def isDigitC (c : Nat) : Bool := 48 ≤ c && c ≤ 57
 def isAlphaC (c : Nat) : Bool := (65 ≤ c && c ≤ 90) || (97 ≤ c && c ≤ 122)
 def isHexC (c : Nat) : Bool := isDigitC c || (65 ≤ c && c ≤ 70) || (97 ≤ c && c ≤ 102)
 
-/-- decimal rendering, `str(int)` for naturals. -/
-def natToStr (n : Nat) : Str := (toString n).toStr
+/-- decimal rendering, `str(int)` for naturals (structural on a fuel argument so that
+    proofs and kernel evaluation do not go through `Nat.repr`). -/
+def natToStrAux : Nat → Nat → Str
+  | 0, n => [48 + n % 10]
+  | fuel + 1, n => if n < 10 then [48 + n] else natToStrAux fuel (n / 10) ++ [48 + n % 10]
+def natToStr (n : Nat) : Str := natToStrAux n n
 
 /-- Lexicographic `<` on strings (Python compares code points). -/
 def ltStr : Str → Str → Bool
